@@ -115,6 +115,13 @@ func (c *RunnerCloserManager) AddCloser(closers ...any) error {
 	c.mngr.lock.Lock()
 	defer c.mngr.lock.Unlock()
 
+	// Check again now that we hold the lock: Run keeps it for the whole closing
+	// phase, so closing may have started (and finished) while we were waiting,
+	// and a closer registered now would never be called.
+	if c.closing.Load() {
+		return ErrManagerAlreadyClosed
+	}
+
 	var errs []error
 	for _, cl := range closers {
 		switch v := cl.(type) {
